@@ -556,6 +556,9 @@ func c08GenPerOp(t *rapid.T) vmCase {
 	c.State = hexList(alt)
 	// context
 	c.Ctx = genCtx(t, rapid.SampledFrom([]int{0, 0, 1, 1, 1, 2}).Draw(t, "ctxmode"))
+	if rapid.IntRange(0, 99).Draw(t, "othervm") == 0 {
+		c.Ctx.VMVersion = rapid.SampledFrom([]uint64{0, 2}).Draw(t, "vmversion")
+	}
 	// program: the instruction, then an observation suffix
 	var suffix []byte
 	switch rapid.IntRange(0, 5).Draw(t, "suffix") {
@@ -726,10 +729,15 @@ func TestC08(t *testing.T) {
 	for op := 0; op < 256; op++ {
 		min["op:"+opName(byte(op))] = 3
 	}
-	pbt.Run(t, "C08",
-		"one instruction per case, opcode byte drawn from all 256; data stack = the operands that opcode consumes (numbers from boundary encodings: empty, non-minimal zeros, 8/9/32/33-byte paddings, values around 0, 2^63, 2^64, k*2^64, 2^255, 2^256-1, shift counts around 256; matching/unequal lengths for splice and bitwise ops; real ed25519 keys/signatures with wrong key/message/order variants; CHECKPREDICATE predicates incl. nested, looping and failing ones) on 0..3 filler items, or one operand missing, or an arbitrary stack of 0..8 items; alt stack 0..2 items read back with FROMALTSTACK; context fields drawn present/absent; gas ample, exact need -1/0/+1, or tiny. Oracle: refvm (trace equality after every step, outcome, gas, admissible failure class, CheckOutput arguments). Non-trivial = the initial data stack has an item that is not a small number (<=16 in one byte); distinct by case",
-		pbt.Options{Sub: "perop", Checks: pbt.Per(256*160, 256*4000), MinClass: min}, c08GenPerOp, c08Exec)
-	pbt.Run(t, "C08",
-		"sequences of 2..6 instructions (pushes, stack, numeric, splice/bitwise, crypto/control/introspection pools, any byte, forward JUMPIF) built left to right preferring instructions the reference can execute; friendly initial stacks (small numbers, short strings) of 0..8 items; same oracle",
-		pbt.Options{Sub: "seq", Checks: pbt.Per(20000, 500000)}, c08GenSeq, c08Exec)
+	// two sub-checks as subtests, so that a failure of the first does not hide the second
+	t.Run("perop", func(t *testing.T) {
+		pbt.Run(t, "C08",
+			"one instruction per case, opcode byte drawn from all 256; data stack = the operands that opcode consumes (numbers from boundary encodings: empty, non-minimal zeros, 8/9/32/33-byte paddings, values around 0, 2^63, 2^64, k*2^64, 2^255, 2^256-1, shift counts around 256; matching/unequal lengths for splice and bitwise ops; real ed25519 keys/signatures with wrong key/message/order variants; CHECKPREDICATE predicates incl. nested, looping and failing ones) on 0..3 filler items, or one operand missing, or an arbitrary stack of 0..8 items; alt stack 0..2 items read back with FROMALTSTACK; context fields drawn present/absent; gas ample, exact need -1/0/+1, or tiny. Oracle: refvm (trace equality after every step, outcome, gas, admissible failure class, CheckOutput arguments). Non-trivial = the initial data stack has an item that is not a small number (<=16 in one byte); distinct by case",
+			pbt.Options{Sub: "perop", Checks: pbt.Per(256*320, 256*25000), MinClass: min}, c08GenPerOp, c08Exec)
+	})
+	t.Run("seq", func(t *testing.T) {
+		pbt.Run(t, "C08",
+			"sequences of 2..6 instructions (pushes, stack, numeric, splice/bitwise, crypto/control/introspection pools, any byte, forward JUMPIF) built left to right preferring instructions the reference can execute; friendly initial stacks (small numbers, short strings) of 0..8 items; same oracle",
+			pbt.Options{Sub: "seq", Checks: pbt.Per(30000, 3000000)}, c08GenSeq, c08Exec)
+	})
 }
